@@ -50,10 +50,24 @@ def zInsert (x : Int × Bytes) : List (Int × Bytes) → List (Int × Bytes)
   | [] => [x]
   | y :: ys => if zLt x y then x :: y :: ys else y :: zInsert x ys
 
-/-- `strconv.FormatFloat(score, 'g', -1, 64)` for a score that is a small number of halves -/
+/-- `strconv.FormatFloat(score, 'g', -1, 64)` for a score that is an exact number of halves below 2^53: plain decimal
+notation below 10^6, exponent notation `d.ddde+XX` (shortest digits = the exact decimal digits without trailing zeros)
+from 10^6 on -/
 def fmtScore (h : Int) : Bytes :=
-  if h % 2 = 0 then itoa (h / 2)
-  else (if h < 0 then b!"-" else []) ++ dec (h.natAbs / 2) ++ b!".5"
+  if h.natAbs < 2000000 then
+    if h % 2 = 0 then itoa (h / 2)
+    else (if h < 0 then b!"-" else []) ++ dec (h.natAbs / 2) ++ b!".5"
+  else
+    let n := h.natAbs
+    -- the decimal digits of |h|/2, and the exponent of the leading digit
+    let digits := if n % 2 = 0 then dec (n / 2) else dec (n * 5)
+    let exp := if n % 2 = 0 then digits.length - 1 else digits.length - 2
+    let m := (digits.reverse.dropWhile (· == 48)).reverse
+    (if h < 0 then b!"-" else []) ++ m.take 1 ++ (if m.length > 1 then b!"." ++ m.drop 1 else []) ++
+      b!"e+" ++ (if exp < 10 then b!"0" else []) ++ dec exp
+
+example : fmtScore 33554434 = b!"1.6777217e+07" ∧ fmtScore 2000001 = b!"1.0000005e+06" ∧ fmtScore 2000000 = b!"1e+06" ∧
+    fmtScore (-24000000) = b!"-1.2e+07" ∧ fmtScore 1999999 = b!"999999.5" ∧ fmtScore (-3) = b!"-1.5" := by decide
 
 /-- Redis index normalisation for LRANGE / ZRANGE / LINDEX: negative indexes count from the end; the range
 is clamped to the sequence; `none` = empty -/
